@@ -126,14 +126,29 @@ Definition step_property (good : option N) (prev s : qstep) : bool :=
 Definition transient_notexist (cfg : path) (st : lstate) : lstate :=
   m_step cfg (mkFs NotExist None false false) st (IEvent cfg).
 
+(* Second environment race: vfs_rename notifies the parent directory
+   (IN_MOVED_TO) before the moved inode itself (IN_MOVE_SELF).  A loop that
+   reacts to the first within microseconds adds its file watch to the inode
+   before the second is sent; the fresh watch then receives IN_MOVE_SELF and
+   fsnotify removes it.  Whenever the model (re-)added the file watch in a step,
+   by an operation that puts the config entry in place with rename(2), the
+   variant in which the kernel dropped it again is a candidate too. *)
+Definition by_rename (o : opkind) : bool :=
+  match o with ORename | OLink | OK8s => true | _ => false end.
+
+Definition with_move_self (cfg : path) (o : opkind) (before : lstate) (r : lstate * N) : list (lstate * N) :=
+  let '(n, w) := r in
+  if by_rename o && negb (st_watching before) && st_watching n
+  then [(n, w); (drop cfg cfg n, w)] else [(n, w)].
+
 Definition successors (cfg : path) (c : lstate * N) (s : qstep) : list (lstate * lstate * N) :=
   let '(st, wino) := c in
-  let '(n1, w1) := model_step cfg st wino s in
+  let tag := map (fun r : lstate * N => (st, fst r, snd r)) in
+  let normal := tag (with_move_self cfg (q_op s) st (model_step cfg st wino s)) in
   match q_dead s with
-  | [] => [(st, n1, w1)]
+  | [] => normal
   | _ => let st' := transient_notexist cfg st in
-         let '(n2, w2) := model_step cfg st' wino s in
-         [(st, n1, w1); (st, n2, w2)]
+         normal ++ tag (with_move_self cfg (q_op s) st' (model_step cfg st' wino s))
   end.
 
 (* bits: 1 = some step differs from the model, 2 = the property fails on some
